@@ -368,17 +368,10 @@ func (e *CoreExtension) filterSplit(value interface{}, args ...interface{}) (int
 
 	// Handle multiple character delimiters (split on any character in the delimiter)
 	if len(delimiter) > 1 {
-		// Convert delimiter string to a regex character class
-		pattern := "[" + regexp.QuoteMeta(delimiter) + "]"
-		re := regexp.MustCompile(pattern)
-
-		if limit > 0 {
-			// Manual split with limit
-			parts := re.Split(s, limit)
-			return parts, nil
-		}
-
-		return re.Split(s, -1), nil
+		// Scan for the delimiter characters directly: inside a regular expression
+		// character class '-' would form a range, and a delimiter that is not
+		// valid UTF-8 would not compile
+		return splitAny(s, delimiter, limit), nil
 	}
 
 	// Simple single character delimiter
@@ -387,6 +380,22 @@ func (e *CoreExtension) filterSplit(value interface{}, args ...interface{}) (int
 	}
 
 	return strings.Split(s, delimiter), nil
+}
+
+// splitAny splits s at every character that occurs in chars. A positive limit
+// bounds the number of parts; the last part then holds the unsplit rest of s.
+func splitAny(s, chars string, limit int) []string {
+	parts := make([]string, 0, 4)
+	for limit <= 0 || len(parts) < limit-1 {
+		i := strings.IndexAny(s, chars)
+		if i < 0 {
+			break
+		}
+		_, width := utf8.DecodeRuneInString(s[i:])
+		parts = append(parts, s[:i])
+		s = s[i+width:]
+	}
+	return append(parts, s)
 }
 
 func (e *CoreExtension) filterDate(value interface{}, args ...interface{}) (interface{}, error) {
